@@ -202,6 +202,50 @@ func checkC06(c *Ctx) {
 		"long.soy":  "{namespace v}\n" + pad + "/** */\n{template .m}\n" + pad + "{2 < 'b'}\n{/template}\n",
 		"other.soy": "{namespace w}\n" + pad + pad + "/** */\n{template .x}\n{call v.m/}{3 < 'c'}\n{/template}\n",
 	}
+	// (g2) different files added under the SAME file name (the name is documented as only used for
+	// error messages and need not be a real or unique file name): a failing render in each.
+	sameName := []string{
+		"{namespace s1}\n" + pad + pad + "/** */\n{template .a}\n" + pad + "{1 < 'a'}\n{/template}\n",
+		"{namespace s2}\n/** */\n{template .b}\n{2 < 'b'}\n{/template}\n",
+		"{namespace s3}\n" + pad + "/** */\n{template .c}\n{call s1.a/}{call s2.b/}\n{/template}\n",
+	}
+	for _, p := range [][]int{{0, 1}, {1, 0}, {0, 1, 2}, {2, 1, 0}, {1, 2, 0}, {0, 2, 1}} {
+		for _, fname := range []string{"", "same.soy"} {
+			for _, entry := range []string{"s1.a", "s2.b", "s3.c"} {
+				if !c.Mine() {
+					continue
+				}
+				var compileErr, renderErr string
+				v := vrt.Run(vrt.Options{Fuel: 1000000}, func() {
+					b := soy.NewBundle()
+					for _, i := range p {
+						b = b.AddTemplateString(fname, sameName[i])
+					}
+					tofu, err := b.CompileToTofu()
+					if err != nil {
+						compileErr = err.Error()
+						return
+					}
+					var buf bytes.Buffer
+					if err := tofu.Render(&buf, entry, nil); err != nil {
+						renderErr = firstLineOf(err.Error())
+					}
+				})
+				cs := c06case{Kind: "same-file-name", Files: map[string]string{"0": sameName[0], "1": sameName[1], "2": sameName[2]}, Order: []string{fmt.Sprint(p), fname}, Expr: entry}
+				obs := fmt.Sprintf("c=%v|e=%v", compileErr != "", renderErr != "")
+				if v.Panic != nil {
+					obs = "panic"
+				}
+				c.Observe(fmt.Sprint("samename", p, fname, entry), obs)
+				c.Nontrivial()
+				if v.Exhausted {
+					c.Violate("terminates", "hang", "hang:same file name", cs, "returns", "fuel exhausted")
+				} else if v.Panic != nil {
+					c.Violate("no Go panic escapes to the caller", "panic", "panic:files sharing a file name:"+panicSite(v.PanicStack), cs, "error", fmt.Sprintf("panic: %v", v.Panic))
+				}
+			}
+		}
+	}
 	names := []string{"short.soy", "long.soy", "other.soy"}
 	perms := [][]int{{0, 1}, {1, 0}, {0, 1, 2}, {0, 2, 1}, {1, 0, 2}, {1, 2, 0}, {2, 0, 1}, {2, 1, 0}, {0, 2}, {2, 0}, {1, 2}, {2, 1}}
 	for _, p := range perms {
